@@ -248,6 +248,31 @@ def r_cb(ctx, prog, codecs):
             ctx.instance(R, ok_use, c, key + ':result',
                          '%s: the buffer returned by the callback must receive the decoded bytes and be registered as the table entry '
                          'of that ESI' % f.name)
+            # a NULL result must never itself be registered / re-submitted as the symbol's buffer: wherever the result flows into a
+            # phi that reaches the table or the recursive submission, that edge must carry "result != NULL"
+            bad_null = None
+            for ph in f.all_insts():
+                if ph.op != 'phi':
+                    continue
+                for bid, x in ph.incoming:
+                    if tt.term(x) == res:
+                        used = any(_mentions_phi_of(f, tt, a2, c) for r2 in f.calls(f.name) for a2 in r2.args[1:2]) or \
+                            any(_mentions_phi_of(f, tt, s3.ops[0], c) for s3 in stored)
+                        if used and _phi_reaches_use(f, tt, ph, c) and not _uses_guarded_nonnull(f, tt, ph):
+                            edge_atoms = atoms_at(f, tt, f.bmap[bid])
+                            if not has_atom(edge_atoms, 'ne', res, ('const', 0)):
+                                # the incoming block itself may end with the test: check the edge label
+                                ok_edge = False
+                                for s4, lab in out_edges(f.bmap[bid]):
+                                    if s4 is ph.block and lab and lab[0] == 'br':
+                                        for a3 in cond_atoms(tt, lab[1], lab[2]):
+                                            if a3 == ('cmp', 'ne', res, ('const', 0)):
+                                                ok_edge = True
+                                if not ok_edge:
+                                    bad_null = ph
+            ctx.instance(R, bad_null is None, bad_null or c, key + ':null-not-registered',
+                         '%s: the callback result can reach the symbol registration without having been tested non-NULL: a callback '
+                         'returning NULL ("let the library allocate") makes the library register a NULL buffer' % f.name)
             # NULL fallback: a NULL callback result must not flow to an edge from which only error returns are reachable
             bad_edge = _null_flows_to_error(f, tt, c, stored)
             ctx.instance(R, bad_edge is None, bad_edge or c, key + ':null-fallback',
@@ -269,6 +294,43 @@ def _mentions_phi_of(f, tt, v, call, depth=0):
     if t[0] == 'phi' and depth < 4:
         phi = f.insts[t[1]]
         return any(_mentions_phi_of(f, tt, x, call, depth + 1) for x in phi.ops)
+    return False
+
+
+def _uses_guarded_nonnull(f, tt, ph):
+    """every registration use of this phi (table store, recursive submission) sits under "phi != NULL" """
+    pt = ('phi', ph.id)
+    ok = False
+    for u in ph.users:
+        if u.op == 'store' and strip_casts(u.ops[0]).k == 'i' and strip_casts(u.ops[0]).inst is ph:
+            if not has_atom(atoms_at(f, tt, u.block), 'ne', pt, ('const', 0)):
+                return False
+            ok = True
+        elif u.op == 'call' and u.callee == f.name:
+            if not has_atom(atoms_at(f, tt, u.block), 'ne', pt, ('const', 0)):
+                return False
+            ok = True
+        elif u.op == 'phi':
+            return False
+    return ok
+
+
+def _phi_reaches_use(f, tt, ph, call):
+    """does this phi (transitively through phis) feed a table store or the recursive submission?"""
+    seen = set()
+    work = [ph]
+    while work:
+        x = work.pop()
+        if x.id in seen:
+            continue
+        seen.add(x.id)
+        for u in x.users:
+            if u.op == 'phi':
+                work.append(u)
+            elif u.op == 'store' and strip_casts(u.ops[0]).k == 'i' and strip_casts(u.ops[0]).inst is x:
+                return True
+            elif u.op == 'call' and u.callee == f.name:
+                return True
     return False
 
 
